@@ -758,7 +758,7 @@ def main(prop, own_codes, gen_params, rule, manifest_trusted, argv=None, extra=N
     extra_cov = {}
     for fn in (extra or []):
         extra_cov[fn.__module__ + "_kernel"] = fn(rep, args, rng)
-    if broken and rep.violations == 0 and not rep.known:
+    if broken and rep.violations == 0:      # a known finding (genes kernel) must not hide a broken obligation
         rep.violation({"broken": True}, {"broken_obligations": broken,
                       "note": "a proof obligation or the correspondence machinery no longer checks; no failing input found"},
                       no_input=True)
